@@ -16,8 +16,9 @@ tvars == <<vars, l, tlast>>
 
 Ev == Tr[l]
 
-\* what every call event reports besides its own result: nothing entered a connection, the radio state
-Call(e) == e.ncn = 0 /\ e.pend = pend'
+\* what every call event reports besides its own result: nothing entered a connection (Disc: the attempts to
+\* reschedule the connection event are not counted), the radio state
+Call(e) == (e.e = "Disc" \/ e.ncn = 0) /\ e.pend = pend'
 
 Explain(e) ==
     \/ /\ e.e = "Reset"
